@@ -599,18 +599,15 @@ Definition on_message_established (fl : flavour) (cfg : ucfg) (s : sess) (o : op
       | None => (s, [Raised XProtocolError])
       | Some r =>
           if progress then
-            (* progressive result: the request stays *)
+            (* progressive result: the request stays.
+               `if call_request.options and call_request.options.on_progress:` -- otherwise skipped silently;
+               kw = msg.kwargs or dict(); args = msg.args or tuple();
+               details: on_progress(CallResult( *args, ..., **kw )), else on_progress( *args, **kw ) *)
             match r_opts r with
-            | None => (s, [Raised XAttributeError])          (* call_request.options.on_progress with options None *)
+            | None => (s, [])
             | Some c =>
-                if co_progress c then
-                  if co_details c then
-                    (* types.CallResult( *msg.args, ..., **msg.kwargs ) *)
-                    match p_args p, p_kw p with
-                    | Some a, Some kw => (s, [Progress (r_fut r) true a kw])
-                    | _, _ => (s, [Raised XTypeError])
-                    end
-                  else (s, [Progress (r_fut r) false (args_or_empty (p_args p)) (kw_or_empty (p_kw p))])
+                if co_progress c
+                then (s, [Progress (r_fut r) (co_details c) (args_or_empty (p_args p)) (kw_or_empty (p_kw p))])
                 else (s, [])
             end
           else
